@@ -48,6 +48,11 @@ def cases(tier):
         out.append(("wf", ["I", D, [0.0, 2.0, 1.0], {"times": [0.0, 0.999, 1.0]}]))
         out.append(("wf", ["X", [((-1) ** i) * 0.5 * i for i in range(D)]]))
         out.append(("wf", ["+", ["C", D, 1.0], ["R", max(1, D // 2), 0.0, 2.0], ["X", [3.0] * min(D, 3)]]))
+    # large values of both signs whose integral cancels (equality / algebra must not go through derived quantities)
+    out.append(("wf", ["R", 500, -60.0, 60.0]))
+    out.append(("wf", ["X", [1000.0, -1000.0]]))
+    out.append(("wf", ["+", ["C", 40, 25.0], ["C", 40, -25.0]]))
+    out.append(("wf", ["X", [((-1) ** i) * 300.0 for i in range(64)]]))
     areas = [0.1, 1.0, math.pi, 10.0, -0.1, -math.pi]
     maxes = [0.5, 1.0, 2.0, 10.0, 47.0]
     betas = [0.0, 3.0, 14.0]
@@ -191,6 +196,23 @@ def check_wf(spec):
             out.append((f"C16:eq-different-samples:{kind}", f"{spec}"))
     if D > 1 and wf == CustomWaveform(s[:-1]):
         out.append((f"C16:eq-different-duration:{kind}", f"{spec}"))
+    # ... on both sides of the closeness tolerance (numpy.isclose: 1e-8 + 1e-5 |value|), for one sample and for whole
+    # families of samples (all, the positive ones, the negative ones): inside => equal, outside => different
+    tol = 1e-8 + 1e-5 * np.abs(s)
+    k = int(np.argmax(np.abs(s)))
+    near = {"one-sample": s.copy(), "all-samples": s + 0.4 * tol, "positive-samples": np.where(s > 0, s + 0.4 * tol, s),
+            "negative-samples": np.where(s < 0, s - 0.4 * tol, s), "alternating": s + 0.4 * tol * np.where(np.arange(D) % 2, 1.0, -1.0)}
+    near["one-sample"][k] += 0.4 * tol[k]
+    for what, arr in near.items():
+        o = CustomWaveform(arr)
+        if not (wf == o and o == wf):
+            out.append((f"C16:eq-close-samples-unequal:{what}", f"{spec}: every sample within 0.4 x tolerance, max |diff| {np.abs(arr - s).max():.3g}, "
+                        f"integrals {wf.integral:.6g} vs {o.integral:.6g}"))
+    far = s.copy()
+    far[k] += 3 * tol[k]
+    o = CustomWaveform(far)
+    if wf == o or o == wf:
+        out.append((f"C16:eq-sample-outside-tolerance-equal:{kind}", f"{spec}: sample {k} differs by 3 x tolerance"))
     # indices and slices
     if D <= 5:
         for i in range(-D - 1, D + 1):
